@@ -59,32 +59,11 @@ def parse_errors(stderr, text):
 
 
 def fn_ranges(text):
-    """(start_line, end_line, name) for every fn in the assembled file."""
+    """(start_line, name) for every fn item in the assembled file (items are not nested, so an error
+    belongs to the nearest preceding fn header)."""
     out = []
     for m in re.finditer(r"^[ \t]*(?:pub(?:\([^)]*\))?\s+)?(?:closed |open |uninterp |broadcast )*(?:spec |proof |exec )?fn\s+(\w+)", text, re.M):
-        name = m.group(1)
-        try:
-            depth = 0
-            i = m.end()
-            ob = -1
-            while i < len(text):
-                c = text[i]
-                if c in "([":
-                    depth += 1
-                elif c in ")]":
-                    depth -= 1
-                elif c == ";" and depth == 0:
-                    break
-                elif c == "{" and depth == 0:
-                    ob = i
-                    break
-                i += 1
-            if ob < 0:
-                continue
-            cb = vlib.find_matching_brace(text, ob)
-        except Undecided:
-            continue
-        out.append((vlib.line_of(text, m.start()), vlib.line_of(text, cb), name))
+        out.append((vlib.line_of(text, m.start()), m.group(1)))
     return out
 
 
@@ -125,8 +104,8 @@ def run(pid, tier, sel):
             for e in errs:
                 if e["line"] is None:
                     continue
-                cands = [r for r in ranges if r[0] <= e["line"] <= r[1]]
-                if cands and max(cands, key=lambda r: r[0])[2] == short:
+                cands = [r for r in ranges if r[0] <= e["line"]]
+                if cands and max(cands, key=lambda r: r[0])[1] == short:
                     out.append(e)
             return out
 
